@@ -1,4 +1,5 @@
 import CoclsModel.AsyncProofs
+import CoclsModel.AsyncRaceProofs
 /-!
 # C04 — an async coroutine runs once, delivers to its bound party, frees once
 
@@ -302,3 +303,75 @@ example : ((run (init demoProg 1) demoOps).co 1).outcome = some (Outcome.val 22)
     ∧ ((run (init demoProg 1) demoOps).co 1).wakes = 1 := by decide
 
 end Cocls.Async
+
+/-!
+# Racing `start(promise)` on one shared promise (thread level)
+
+Model: `CoclsModel/AsyncRace.lean` — any number `c.n` of threads, each either starting its own fresh coroutine with
+`start(shared_promise)` (body returns / awaits a gate first / throws), or invoking the promise (`p(value)`, `p(exception)`,
+`p(drop)`), or destroying it; one step per atomic operation of the code; a schedule is any list of thread ids.
+`OneDtor` is the C++ lifetime precondition that the promise object is destroyed at most once.
+-/
+namespace Cocls.AsyncRace
+open Cocls.Async (Outcome)
+
+/-- precondition: at most one thread destroys the promise object -/
+def OneDtor (c : Cfg) : Prop := ∀ x y, c.kind x = Kind.dtor → c.kind y = Kind.dtor → x = y
+
+theorem reachable_inv (c : Cfg) (hd : OneDtor c) (sched : List Nat) : Inv c (run c {} sched) :=
+  inv_run c {} sched hd (inv_init c)
+
+/-- **Exactly one claim succeeds**: for any number of contenders and every interleaving of their atomic operations, at
+most one call (`start(promise)` or `p(...)`) obtains the future, and while the promise is still armed nobody has. -/
+theorem c04_race_unique_winner (c : Cfg) (hd : OneDtor c) (sched : List Nat) :
+    (∀ a b, (run c {} sched).claimed a = some true → (run c {} sched).claimed b = some true → a = b)
+    ∧ ((run c {} sched).owner = true → ∀ a, (run c {} sched).claimed a ≠ some true) :=
+  ⟨(reachable_inv c hd sched).unique, fun h => ((reachable_inv c hd sched).owner_free h).1⟩
+
+/-- **A loser stays unstarted**: a `start(promise)` that did not obtain the future (returned `false`, or has not
+claimed yet) never runs its body, never destroys its frame/arguments, and its coroutine is not parked anywhere —
+on every schedule, at every point of the run. -/
+theorem c04_race_loser_unstarted (c : Cfg) (hd : OneDtor c) (sched : List Nat) (a : Nat)
+    (h : (run c {} sched).claimed a ≠ some true) :
+    (run c {} sched).bodyStarts a = 0 ∧ (run c {} sched).argDtors a = 0 ∧ (run c {} sched).suspended a = false :=
+  (reachable_inv c hd sched).loser_idle a h
+
+/-- **Body and frame at most once, only for the winner**. -/
+theorem c04_race_body_once (c : Cfg) (hd : OneDtor c) (sched : List Nat) (a : Nat) :
+    (run c {} sched).bodyStarts a ≤ 1 ∧ (run c {} sched).argDtors a ≤ 1
+    ∧ ((run c {} sched).bodyStarts a = 1 → (run c {} sched).claimed a = some true) := by
+  have hi := reachable_inv c hd sched
+  refine ⟨(hi.body_le a).1, (hi.body_le a).2, ?_⟩
+  intro hb
+  cases hc : decide ((run c {} sched).claimed a = some true)
+  · have := (hi.loser_idle a (by simpa using hc)).1; omega
+  · simpa using hc
+
+/-- **The future holds the winner's outcome and is resolved once**: whatever the shared future holds was stored by
+the unique winner (the value its coroutine returned / the exception it threw / the value passed to `p(...)`), and
+`resolve()` ran at most once. -/
+theorem c04_race_delivery (c : Cfg) (hd : OneDtor c) (sched : List Nat) :
+    (∀ x a, (run c {} sched).fut = some x → (run c {} sched).claimed a = some true → x = (c.kind a).payload)
+    ∧ (run c {} sched).resolves ≤ 1 := by
+  have hi := reachable_inv c hd sched
+  refine ⟨fun x a hx ha => hi.fut_winner x hx a ha, ?_⟩
+  rw [hi.resolves_eq]; split <;> omega
+
+/-- The seeded check-then-claim variant of `start_promise` (`if (!p) return nullptr; _future = p.claim(); return
+start_coro();`) violates all of the above: with two racing starters and the alternating schedule both calls report
+success and both bodies run (replayed on the headers by the `start-promise-race` suite). -/
+theorem c04_race_check_then_claim_violates :
+    let c : Cfg := { n := 2, kind := fun i => Kind.start (10 + i) }
+    let s := runMut c {} [0, 1, 0, 1, 0, 1, 0, 1]
+    s.claimed 0 = some true ∧ s.claimed 1 = some true ∧ s.bodyStarts 0 = 1 ∧ s.bodyStarts 1 = 1 ∧ s.detached 1 = true := by
+  decide
+
+/-- non-vacuity: the same schedule on the real step function: thread 0 wins and runs, thread 1 is refused -/
+example :
+    let c : Cfg := { n := 2, kind := fun i => Kind.start (10 + i) }
+    let s := run c {} [0, 1, 0, 1, 0, 1]
+    s.claimed 0 = some true ∧ s.claimed 1 = some false ∧ s.bodyStarts 0 = 1 ∧ s.bodyStarts 1 = 0
+      ∧ s.fut = some (some (Outcome.val 10)) := by
+  decide
+
+end Cocls.AsyncRace
